@@ -6,6 +6,10 @@ use serde::{Deserialize, Serialize};
 
 #[derive(Clone, Debug, PartialEq, Eq, Serialize, Deserialize)]
 pub enum RepMode {
+    /// .enumerate().collect::<Vec<(usize, _)>>()
+    Enumerate,
+    /// .collect_exactly::<[_; 2]>()
+    Exactly2,
     Collect,
     Count,
     Unit,
@@ -88,7 +92,17 @@ pub enum G {
     Text(u8),
     /// a.padded() — InputRef::skip_while on every ValueInput kind whose tokens are characters
     Padded(Box<G>),
+    /// less common unary combinators, Un(kind, k, a): 0 map_err, 1 map_err_with_state, 2 try_map_with(k),
+    /// 3 with_state(fresh inspector seeded with k), 4 map(Ok).unwrapped(), 5 with_ctx(()), 6 map_ctx
+    Un(u8, u8, Box<G>),
+    /// FoldWith(true, a, item) = a.foldl_with(item.repeated(), f(span)); FoldWith(false, item, b) = item.repeated().foldr_with(b, f(span))
+    FoldWith(bool, Box<G>, Box<G>),
+    /// group((a, b, c)) and choice((a, b, c)): the tuple implementations
+    Group3(Box<G>, Box<G>, Box<G>),
+    Choice3(Box<G>, Box<G>, Box<G>),
 }
+
+pub const N_UN: u8 = 7;
 
 pub const N_TEXT: u8 = 11;
 
@@ -235,10 +249,12 @@ impl<'r> Gen<'r> {
         }
     }
     fn mode(&mut self) -> RepMode {
-        match self.rng.below(4) {
-            0 | 1 => RepMode::Collect,
-            2 => RepMode::Count,
-            _ => RepMode::Unit,
+        match self.rng.below(10) {
+            0..=3 => RepMode::Collect,
+            4 | 5 => RepMode::Count,
+            6 | 7 => RepMode::Unit,
+            8 => RepMode::Enumerate,
+            _ => RepMode::Exactly2,
         }
     }
     fn gen(&mut self, d: usize, consuming: bool) -> G {
@@ -250,8 +266,20 @@ impl<'r> Gen<'r> {
         }
         self.left -= 1;
         for _ in 0..40 {
-            let k = self.rng.below(42);
+            let k = self.rng.below(50);
             let g = match k {
+                42..=44 if self.fam(11) => G::Un(self.rng.below(N_UN as u64) as u8, self.rng.below(16) as u8, self.bx(d + 1, consuming)),
+                45 if self.fam(6) => G::FoldWith(true, self.bx(d + 1, consuming), self.bx(d + 1, true)),
+                46 if self.fam(6) => G::FoldWith(false, self.bx(d + 1, true), self.bx(d + 1, consuming)),
+                47 if self.fam(0) => {
+                    let pick = self.rng.below(3);
+                    let mut c = [false; 3];
+                    if consuming {
+                        c[pick as usize] = true;
+                    }
+                    G::Group3(self.bx(d + 1, c[0]), self.bx(d + 1, c[1]), self.bx(d + 1, c[2]))
+                }
+                48..=49 if self.fam(2) => G::Choice3(self.bx(d + 1, consuming), self.bx(d + 1, consuming), self.bx(d + 1, consuming)),
                 40..=41 if self.cfg.allow_pad && self.cfg.value_prims => G::Padded(self.bx(d + 1, consuming)),
                 0..=2 => return self.leaf(consuming),
                 3..=5 if self.fam(0) => {
@@ -425,6 +453,11 @@ pub fn nullable(g: &G) -> bool {
         Sep { item, sep, min, lead, .. } => *min == 0 || (nullable(item) && (nullable(sep) || !*lead || true)),
         Foldl(a, _) => nullable(a),
         Foldr(_, b) => nullable(b),
+        FoldWith(true, a, _) => nullable(a),
+        FoldWith(false, _, b) => nullable(b),
+        Un(_, _, a) => nullable(a),
+        Group3(a, b, c) => nullable(a) && nullable(b) && nullable(c),
+        Choice3(a, b, c) => nullable(a) || nullable(b) || nullable(c),
         MapSpan(a) | ToSpan(a) | StateProbe(a) | Filter(a, _) | TryMap(a, _) | Validate(a, _) | Labelled(a, ..) | Memo(a) | Ignored(a)
         | To(a, _) | Lazy(a) | Slice(a) | Padded(a) => nullable(a),
         Recover(a, s) => {
@@ -487,12 +520,18 @@ pub fn fixup(g: &mut G, nsym: u8) {
                 }
             }
         }
-        Foldl(a, item) => {
+        Foldl(a, item) | FoldWith(true, a, item) => {
             fixup(a, nsym);
             fixup(item, nsym);
             guard(item, nsym);
         }
-        Foldr(item, b) => {
+        Un(_, _, a) => fixup(a, nsym),
+        Group3(a, b, c) | Choice3(a, b, c) => {
+            fixup(a, nsym);
+            fixup(b, nsym);
+            fixup(c, nsym);
+        }
+        Foldr(item, b) | FoldWith(false, item, b) => {
             fixup(item, nsym);
             fixup(b, nsym);
             guard(item, nsym);
@@ -537,8 +576,11 @@ fn leftmost_recref(g: &G) -> bool {
         | Labelled(a, ..) | Memo(a) | Ignored(a) | To(a, _) | Lazy(a) | Rec(a) | Slice(a) | Padded(a) => leftmost_recref(a),
         Rep { item, .. } => leftmost_recref(item),
         Sep { item, sep, lead, .. } => leftmost_recref(item) || (*lead && leftmost_recref(sep)),
-        Foldl(a, item) => leftmost_recref(a) || (nullable(a) && leftmost_recref(item)),
-        Foldr(item, b) => leftmost_recref(item) || leftmost_recref(b),
+        Foldl(a, item) | FoldWith(true, a, item) => leftmost_recref(a) || (nullable(a) && leftmost_recref(item)),
+        Foldr(item, b) | FoldWith(false, item, b) => leftmost_recref(item) || leftmost_recref(b),
+        Un(_, _, a) => leftmost_recref(a),
+        Group3(a, b, c) => leftmost_recref(a) || (nullable(a) && (leftmost_recref(b) || (nullable(b) && leftmost_recref(c)))),
+        Choice3(a, b, c) => leftmost_recref(a) || leftmost_recref(b) || leftmost_recref(c),
         Recover(a, s) => {
             leftmost_recref(a)
                 || match s {
@@ -554,7 +596,9 @@ pub fn children(g: &G) -> Vec<&G> {
     use G::*;
     match g {
         Then(a, b) | IgnoreThen(a, b) | ThenIgnore(a, b) | PaddedBy(a, b) | Or(a, b) | AndIs(a, b) | Foldl(a, b) | Foldr(a, b) => vec![a, b],
-        Delim(a, b, c) => vec![a, b, c],
+        Delim(a, b, c) | Group3(a, b, c) | Choice3(a, b, c) => vec![a, b, c],
+        FoldWith(_, a, b) => vec![a, b],
+        Un(_, _, a) => vec![a],
         Choice(v) => v.iter().collect(),
         OrNot(a) | Not(a) | Rewind(a) | MapSpan(a) | ToSpan(a) | StateProbe(a) | Filter(a, _) | TryMap(a, _) | Validate(a, _)
         | Labelled(a, ..) | Memo(a) | Ignored(a) | To(a, _) | Lazy(a) | Rec(a) | Slice(a) | Padded(a) => vec![a],
@@ -573,7 +617,9 @@ pub fn children_mut(g: &mut G) -> Vec<&mut G> {
     use G::*;
     match g {
         Then(a, b) | IgnoreThen(a, b) | ThenIgnore(a, b) | PaddedBy(a, b) | Or(a, b) | AndIs(a, b) | Foldl(a, b) | Foldr(a, b) => vec![a, b],
-        Delim(a, b, c) => vec![a, b, c],
+        Delim(a, b, c) | Group3(a, b, c) | Choice3(a, b, c) => vec![a, b, c],
+        FoldWith(_, a, b) => vec![a, b],
+        Un(_, _, a) => vec![a],
         Choice(v) => v.iter_mut().collect(),
         OrNot(a) | Not(a) | Rewind(a) | MapSpan(a) | ToSpan(a) | StateProbe(a) | Filter(a, _) | TryMap(a, _) | Validate(a, _)
         | Labelled(a, ..) | Memo(a) | Ignored(a) | To(a, _) | Lazy(a) | Rec(a) | Slice(a) | Padded(a) => vec![a],
@@ -690,6 +736,11 @@ pub fn sexpr(g: &G) -> String {
         CustomApi(k, a) => format!("custom_api#{}({})", k, c(*a)),
         Text(k) => format!("text#{}", ["ascii_ident", "unicode_ident", "int10", "int16", "digits36", "ws1", "inline_ws1", "newline", "ws0", "regex0", "regex1"].get(*k as usize).copied().unwrap_or("?")),
         Padded(a) => format!("(padded {})", sexpr(a)),
+        Un(k, n, a) => format!("({}#{} {})", ["map_err", "map_err_with_state", "try_map_with", "with_state", "unwrapped", "with_ctx", "map_ctx"].get(*k as usize).copied().unwrap_or("un?"), n, sexpr(a)),
+        FoldWith(true, a, b) => format!("(foldl_with {} {})", sexpr(a), sexpr(b)),
+        FoldWith(false, a, b) => format!("(foldr_with {} {})", sexpr(a), sexpr(b)),
+        Group3(a, b, c) => format!("(group {} {} {})", sexpr(a), sexpr(b), sexpr(c)),
+        Choice3(a, b, c) => format!("(choice3 {} {} {})", sexpr(a), sexpr(b), sexpr(c)),
     }
 }
 
@@ -835,13 +886,20 @@ pub fn sample(g: &G, rng: &mut Rng, nsym: u8, out: &mut Vec<u8>, fuel: &mut i64,
                 sample(sep, rng, nsym, out, fuel, rec);
             }
         }
-        Foldl(a, item) => {
+        Un(_, _, a) => sample(a, rng, nsym, out, fuel, rec),
+        Group3(a, b, c) => {
+            sample(a, rng, nsym, out, fuel, rec);
+            sample(b, rng, nsym, out, fuel, rec);
+            sample(c, rng, nsym, out, fuel, rec);
+        }
+        Choice3(a, b, c) => sample([a, b, c][rng.usize(3)], rng, nsym, out, fuel, rec),
+        Foldl(a, item) | FoldWith(true, a, item) => {
             sample(a, rng, nsym, out, fuel, rec);
             for _ in 0..rng.below(4) {
                 sample(item, rng, nsym, out, fuel, rec);
             }
         }
-        Foldr(item, b) => {
+        Foldr(item, b) | FoldWith(false, item, b) => {
             for _ in 0..rng.below(4) {
                 sample(item, rng, nsym, out, fuel, rec);
             }
